@@ -15,7 +15,7 @@ from vmc import space
 
 date = datetime.date
 
-FAMILIES = ("nested", "inherit", "generic", "mutual", "formats", "helpers")
+FAMILIES = ("nested", "inherit", "generic", "mutual", "formats", "helpers", "disc")
 LATE = "late"      # parent defined first; the subclass is defined by an operation of the history (C13)
 
 
@@ -115,6 +115,17 @@ def source(family, mode, support, config_dialect=None):
         c = "@dataclass\nclass C(C0):\n    x: int = 5\n    dd: Optional[date] = None\n"
         chunks = [c0, c]
         roles = ["C0", "C"]
+    elif family == "disc":
+        # class-level discriminator: the tag registry of Base is filled on first use, per format, and shared by every caller
+        dcfg = _cfg(mode, support, "discriminator = Discriminator(field='kind', include_subtypes=True)")
+        base = f"@dataclass\nclass Base(DataClassDictMixin):\n    tag: str\n{dcfg}"
+        va = "@dataclass\nclass VA(Base):\n    kind: str = 'A'\n    d: Optional[date] = None\n"
+        vb = "@dataclass\nclass VB(Base):\n    kind: str = 'B'\n    n: int = 0\n"
+        hd = f"BaseB = Base\n@dataclass\nclass HD(DataClassDictMixin):\n    m: List[{q('Base')}]\n    o: Optional[{q('Base')}] = None\n{cfg}"
+        chunks = [hd, base, va, vb] if post else [base, va, vb, hd]
+        if post:
+            chunks = [chunks[0].replace("BaseB = Base\n", ""), base, va, vb, "BaseB = Base\n"]
+        roles = ["Base", "BaseB", "HD"]
     elif family == "formats":
         f = (f"@dataclass\nclass F(DataClassORJSONMixin, DataClassMessagePackMixin):\n    d: date\n    b: bytes\n"
              f"    i: Optional[{q('Inner')}] = None\n    td: Optional[{q('TDB')}] = None\n{cfg}")
@@ -150,8 +161,9 @@ class Family:
 
     def classes(self):
         out = {r: self.ctx.ns[r] for r in self.roles if r in self.ctx.ns}
-        if "Inner" in self.ctx.ns:
-            out["Inner"] = self.ctx.ns["Inner"]
+        for extra in ("Inner", "VA", "VB"):
+            if extra in self.ctx.ns:
+                out[extra] = self.ctx.ns[extra]
         return out
 
     def dispose(self):
@@ -181,6 +193,12 @@ class Family:
             return ns["MA"](b=ns["MB"](a=ns["MA"](None, 2)), n=3)
         if role == "MB":
             return ns["MB"](a=ns["MA"](ns["MB"]()), d=date(2019, 9, 9))
+        if role == "Base":
+            return ns["VA"]("ta", d=date(2020, 1, 2))
+        if role == "BaseB":
+            return ns["VB"]("tb", n=4)
+        if role == "HD":
+            return ns["HD"](m=[ns["VB"]("tb", n=4), ns["VA"]("ta", d=date(2020, 1, 2))], o=ns["VA"]("tc"))
         if role == "F":
             return ns["F"](d=date(2020, 1, 2), b=b"\x00\xffab", i=ns["Inner"](date(2021, 3, 4)), td={"d": date(2022, 1, 1), "b": b"\x01\xfe"})
         raise ValueError(role)
